@@ -124,6 +124,7 @@ type Conn struct {
 	pushed     int32
 	peerKnown  int32 // highest height of the node's chain the service is known to have
 	pongs      chan uint64
+	hdrReplies chan *wire.MsgHeaders // headers messages received from the service (the node asked with getheaders)
 	handshake  chan struct{}
 	hsOnce     sync.Once
 }
@@ -216,7 +217,7 @@ func (n *Node) DialService(serviceAddr, localIP string) (*Conn, error) {
 
 func (n *Node) serve(c net.Conn, dialed bool) *Conn {
 	n.mu.Lock()
-	cn := &Conn{ID: len(n.conns) + 1, node: n, c: c, dialed: dialed, pongs: make(chan uint64, 64), handshake: make(chan struct{})}
+	cn := &Conn{ID: len(n.conns) + 1, node: n, c: c, dialed: dialed, pongs: make(chan uint64, 64), hdrReplies: make(chan *wire.MsgHeaders, 16), handshake: make(chan struct{})}
 	n.conns = append(n.conns, cn)
 	n.mu.Unlock()
 	n.Log.add(Event{Node: n.Name, Conn: cn.ID, Dir: "conn", Cmd: map[bool]string{true: "dialed-service", false: "accepted"}[dialed], Info: c.RemoteAddr().String()})
@@ -425,6 +426,11 @@ func (c *Conn) loop() {
 			}
 		case *wire.MsgSendHeaders:
 			atomic.StoreInt32(&c.sendHdrs, 1)
+		case *wire.MsgHeaders:
+			select {
+			case c.hdrReplies <- m:
+			default:
+			}
 		case *wire.MsgGetHeaders:
 			gs := GetHeadersSeen{Node: n.Name, Conn: c.ID, Stop: refmodel.Hash(m.HashStop)}
 			for _, l := range m.BlockLocatorHashes {
@@ -580,5 +586,32 @@ func (c *Conn) Ping(timeout time.Duration) bool {
 		if c.Dead() {
 			return false
 		}
+	}
+}
+
+// AskHeaders sends a getheaders(locator, stop) to the service and waits for its headers reply.
+// ok=false when no reply arrived within the watchdog.
+func (c *Conn) AskHeaders(locator []refmodel.Hash, stop refmodel.Hash, watchdog time.Duration) ([]refmodel.Hdr, bool) {
+	for len(c.hdrReplies) > 0 {
+		<-c.hdrReplies
+	}
+	gh := wire.NewMsgGetHeaders()
+	gh.HashStop = chainhash.Hash(stop)
+	for i := range locator {
+		h := chainhash.Hash(locator[i])
+		_ = gh.AddBlockLocatorHash(&h)
+	}
+	if err := c.write(gh, fmt.Sprintf("node asks: locator=%d", len(locator))); err != nil {
+		return nil, false
+	}
+	select {
+	case m := <-c.hdrReplies:
+		out := make([]refmodel.Hdr, 0, len(m.Headers))
+		for _, h := range m.Headers {
+			out = append(out, refmodel.Hdr{Version: h.Version, Prev: refmodel.Hash(h.PrevBlock), Merkle: refmodel.Hash(h.MerkleRoot), Time: uint32(h.Timestamp.Unix()), Bits: h.Bits, Nonce: h.Nonce})
+		}
+		return out, true
+	case <-time.After(watchdog):
+		return nil, false
 	}
 }
